@@ -97,7 +97,7 @@ func c35(c *an.Check) {
 						return r == an.EQ && an.IsIntConst(y, 0) && an.LenOf(s, x, func(v ssa.Value) bool { return an.IsFieldLoad(v, preF) })
 					})
 					b := false
-					for _, bl := range rs.Blocks {
+					for _, bl := range an.ScanBlocks(rs) {
 						for _, ins := range bl.Instrs {
 							if u, ok := ins.(*ssa.UnOp); ok && an.IsFieldLoad(u, reF) && s.IsNil(u) {
 								b = true
@@ -111,7 +111,7 @@ func c35(c *an.Check) {
 				}}),
 			an.AnyOf("requested server id passes the server filter (or none is configured)",
 				an.Req{Name: "server regexp nil", Holds: func(s *an.State, at ssa.Instruction) bool {
-					for _, bl := range rs.Blocks {
+					for _, bl := range an.ScanBlocks(rs) {
 						for _, ins := range bl.Instrs {
 							if u, ok := ins.(*ssa.UnOp); ok && an.IsFieldLoad(u, srvReF) && s.IsNil(u) {
 								return true
@@ -224,7 +224,7 @@ func c35(c *an.Check) {
 					return r == an.EQ && an.IsIntConst(y, 0) && an.LenOf(s, x, func(v ssa.Value) bool { return an.IsFieldLoad(v, ppF) })
 				})
 				b := false
-				for _, bl := range hh.Blocks {
+				for _, bl := range an.ScanBlocks(hh) {
 					for _, ins := range bl.Instrs {
 						if u, ok := ins.(*ssa.UnOp); ok && an.IsFieldLoad(u, preF) && s.IsNil(u) {
 							b = true
@@ -326,7 +326,7 @@ func c35(c *an.Check) {
 	mm := p.Func("http", "", "MatchServeMuxPattern")
 	okM := false
 	if mm != nil {
-		for _, b := range mm.Blocks {
+		for _, b := range an.ScanBlocks(mm) {
 			for _, ins := range b.Instrs {
 				if ph, ok := ins.(*ssa.Phi); ok {
 					hasDefault, hasReq := false, false
@@ -372,7 +372,7 @@ func accessClientFilter(c *an.Check) {
 	pass := func(f *types.Var, getter, what string) an.Req {
 		return an.AnyOf(what,
 			an.Req{Name: "pattern unset", Holds: func(s *an.State, at ssa.Instruction) bool {
-				for _, b := range hd.Blocks {
+				for _, b := range an.ScanBlocks(hd) {
 					for _, ins := range b.Instrs {
 						if u, ok := ins.(*ssa.UnOp); ok && an.IsFieldLoad(u, f) && s.IsNil(u) {
 							return true
